@@ -865,7 +865,7 @@ def _mesh_families(blocks: List[List[int]]) -> List[int]:
 PTS_DISKS = ["OneCoreDisk", "QuarterDisk", "HalfDisk", "FourCoreDisk"]
 PTS_WHAT = (
     [f"sketch:{c}" for c in PTS_DISKS] + ["wrapped", "oval", "cyl:FourCoreDisk", "cyl:HalfDisk", "frustum", "grid"]
-    + [f"extr:{c}" for c in PTS_DISKS]
+    + [f"extr:{c}" for c in PTS_DISKS] + ["extr:WrappedDisk", "extr:Oval", "extr:Grid"]
 )
 
 
@@ -942,6 +942,25 @@ def run_pts(case: dict) -> dict:
                 sh = cb.Frustum(c, p2, rp, r2)
                 s1 = sh.sketch_1
                 out["req"] = f"c11.frustum {r3(c)} {r3(p2)} {r3(rp)} {R(f.norm(p2 - c))} {R(h)} {R(s1.core_ratio)} {R(s1.diagonal_ratio)} {R(r2)} {R(f.norm(rp - c))}"
+            elif cls == "WrappedDisk":
+                radius = fl(p["r"]) * fl(p["rin"]) * fr.s
+                s1 = d.WrappedDisk(c, rp, radius, n)
+                amount = fl(p["L"]) * fr.s
+                sh = cb.ExtrudedShape(s1, amount)
+                out["req"] = f"c11.extrw {r3(c)} {r3(rp)} {r3(u)} {R(h)} {R(s1.diagonal_ratio)} {R(radius)} {R(f.norm(rp - c))} {R(amount)}"
+            elif cls == "Oval":
+                c2 = fr.P(-fl(p["D"]) * math.sin(fl(p["phi"])), fl(p["D"]) * math.cos(fl(p["phi"])), 0)
+                radius = fl(p["r"]) * fr.s
+                s1 = d.Oval(c, c2, n, radius)
+                amount = fl(p["L"]) * fr.s
+                sh = cb.ExtrudedShape(s1, amount)
+                out["req"] = f"c11.extro {r3(c)} {r3(c2)} {r3(u)} {R(h)} {R(s1.core_ratio)} {R(s1.diagonal_ratio)} {R(radius)} {R(f.norm(np.cross(u, c2 - c)))} {R(amount)}"
+            elif cls == "Grid":
+                g = [fl(t) for t in p["g"]]
+                s1 = cb.Grid([g[0], g[1], 0], [g[0] + g[2], g[1] + g[3], 0], p["n"], p["m"])
+                amount = fl(p["L"])
+                sh = cb.ExtrudedShape(s1, amount)
+                out["req"] = f"c11.extrg {R(g[0])} {R(g[1])} {R(g[0] + g[2])} {R(g[1] + g[3])} {p['n']} {p['m']} {R(amount)}"
             else:
                 s1 = getattr(d, cls)(c, rp, n)
                 amount = fl(p["L"]) * fr.s
@@ -1064,8 +1083,8 @@ class C11(core.Check):
         "the implementation's output for the generated placements only. Round 6: the point generators of OneCoreDisk, "
         "QuarterDisk, HalfDisk, FourCoreDisk and of ExtrudedShape / Cylinder / SemiCylinder / Frustum over them are an "
         "executable model (compared point by point) with theorems for all placements over every ordered field (faces "
-        "counter-clockwise, blocks right-handed, rim on the circle; over R with the source's constants); WrappedDisk, "
-        "Oval and Grid are modelled and compared but have no theorem; Elbow, Hemisphere, rings beyond one segment, "
+        "counter-clockwise, blocks right-handed, rim on the circle; over R with the source's constants); round 6c: the "
+        "same for WrappedDisk, Oval and Grid (faces counter-clockwise, ExtrudedShape right-handed); Elbow, Hemisphere, rings beyond one segment, "
         "spline sketches, the cusp shear of the joints and the distinctness of the generated points stay validator-only; "
         "joints: a uniform hand model for every branch count, equal to the probes for 2..6 (decide), compared with the "
         "implementation for every generated count (2..7 quick, 8, 9 thorough), choppable for 2..12 by evaluation; no "
@@ -1331,6 +1350,8 @@ class C11(core.Check):
                 "c11.cyl FourCoreDisk 0/1,0/1,0/1 0/1,0/1,1/1 1/1,0/1,0/1 0/1 7/10 4/5 9/10",
                 "c11.gridpts 0/1 0/1 1/1 1/1 0 2",
                 "c11.joint 1",
+                "c11.extrg 0/1 0/1 1/1 1/1 0 2 1/1",
+                "c11.extrw 0/1,0/1,0/1 1/1,0/1,0/1 0/1,0/1,1/1 7/10 9/10 1/2 0/1 1/1",
             ]
         if case["kind"] == "Pts":
             return [impl["req"]] if "req" in impl else []
